@@ -22,13 +22,14 @@ from ..ref import cov as rcov
 
 ID = 'C06'
 LEVEL = 'exploration'
-DECIDING = ['tap:covariance', 'cov_calls_judged', 'scale_sweeps_judged', 'histories_judged', 'function_histories_judged', 'pearson_pairs', 'permutations_judged', 'external_JSJ_judged',
+DECIDING = ['tap:covariance', 'cov_calls_judged', 'scale_sweeps_judged', 'histories_judged', 'function_histories_judged', 'coincidence_cases', 'rank_deficient_cases', 'empty_replica_cases', 'option_value_cases', 'pearson_pairs', 'permutations_judged', 'external_JSJ_judged',
             'chol_judged', 'sort_corr_judged', 'smooth_judged', 'error_band_judged']
 RULE = ('cases: lists of 2/3/5/8 analysed observables with support {one chain, replicas (subsets), two ensembles, covariance inputs only, '
         'mixed} x list relation {identical, nested, overlapping} (primaries and derived quantities, lengths 12-60 quick / up to 300 '
         'thorough, random S / tau_exp / N_sigma per observable), output cov / corr / every admissible smoothing E, random permutations, '
         'an observable with disjoint support mixed in; scale sweep (each observable multiplied by +-10^k, k in -8..8, judged by the same '
-        'reference with tolerances relative to err_i err_j, plus cov(c_i a, c_j b) = c_i c_j cov(a, b)); call histories with twin lists '
+        'reference with tolerances relative to err_i err_j, plus cov(c_i a, c_j b) = c_i c_j cov(a, b)); coincidences (equal means incl. exactly 0, equal errors, correlation exactly +-1 between different objects, '
+        'duplicates), more observables than samples, a replica without common configurations, numpy-typed option values; call histories with twin lists '
         'sharing length / first / last member; helper rows for invert_corr_cov_cholesky, sort_corr, smoothing admissibility and '
         'error_band (parameter errors from 1e-10 to 1e2, homogeneity for linear models); non-trivial: an off-diagonal entry with |corr| in (0.05, 0.95) was compared with the reference (helpers: a matrix '
         'with such an entry went through the helper); distinct = digest of the observables\' data, errors and options')
@@ -86,7 +87,11 @@ class CovMonitor(taps.Monitor):
         kw = dict(zip(names, args))
         kw.update(kwargs)
         correlation = kw.get('correlation', False)
+        if isinstance(correlation, np.bool_):
+            correlation = bool(correlation)                  # numpy's True / False are the documented flag values
         sm = kw.get('smooth', None)
+        if isinstance(sm, np.integer):
+            sm = int(sm)                                     # a numpy integer is an integer smoothing parameter
         n = len(snaps)
         smoothing = isinstance(sm, int)
         if exc is not None:
@@ -638,6 +643,149 @@ def case_history(ctx, rng):
     ctx.nontrivial.add(digest('history', first, other))
 
 
+def case_coincidence(ctx, rng, variant, support):
+    """Coincidences at the level of central values / errors and members that == cannot tell apart: equal means (also exactly
+    0.0), equal errors, correlation exactly +-1 between different objects, the same object twice next to an equal copy."""
+    pe = PE
+    n = int(rng.choice([3, 5]))
+    L = build_list(ctx, rng, n, support, str(rng.choice(RELATIONS)))
+    obs, params = list(L['obs']), list(L['params'])
+    expect_unit = {}
+    if variant in ('equal_means', 'zero_means'):
+        t = 0.0 if variant == 'zero_means' else float(rng.uniform(-2, 2))
+        obs = [o - o.value + t for o in obs]
+    elif variant == 'equal_errors':
+        e0 = float(obs[0].dvalue)
+        obs = [o * (e0 / o.dvalue) for o in obs]
+    elif variant == 'perfect_correlation':
+        i, j, k = [int(v) for v in rng.permutation(n)[:3]]
+        obs[j] = float(rng.uniform(0.5, 3.0)) * obs[i] + float(rng.uniform(-2, 2))      # different object, correlation +1
+        obs[k] = -float(rng.uniform(0.5, 3.0)) * obs[i]                                  # correlation -1
+        params[j] = params[k] = params[i]
+        expect_unit = {(i, j): 1.0, (i, k): -1.0, (j, k): -1.0}
+    else:  # duplicates
+        i, j, k = [int(v) for v in rng.permutation(n)[:3]]
+        obs[j] = obs[i]                                     # the very same object twice
+        obs[k] = 1.0 * obs[i]                               # equal data in another object, with another tag
+        obs[k].tag = 'copy'
+        params[j] = params[k] = params[i]
+        expect_unit = {(i, j): 1.0, (i, k): 1.0, (j, k): 1.0}
+    for o, kw in zip(obs, params):
+        o.gamma_method(**kw)
+    if any((not np.isfinite(o.dvalue)) or o.dvalue <= 0 for o in obs):
+        raise Skip()
+    ctx.cell('coincidence', variant, support)
+    ctx.count('coincidence_cases')
+    C = pe.covariance(obs)                                   # judged by the monitor
+    R = pe.covariance(obs, correlation=True)
+    errs = np.array([o.dvalue for o in obs])
+    if variant in ('equal_means', 'zero_means'):
+        ctx.require(len(set(float(o.value) for o in obs)) == 1, 'harness:means-not-equal', {})
+    if variant == 'equal_errors':
+        ctx.close(np.diag(C) / errs[0] ** 2, np.ones(n), 'covariance:diagonal-not-squared-error', 'equal errors', rtol=0, atol=1e-11)
+    if expect_unit and has_mc_and_external(obs):
+        # affine images change the relative weight of Monte Carlo and external parts (documented construction, observation only)
+        ctx.count('affine_relation_not_judged_for_mixed_support')
+        expect_unit = {}
+    for (a_, b_), sgn in expect_unit.items():
+        ctx.close(R[a_, b_], sgn, 'correlation:affine-images-of-one-observable-not-perfectly-correlated', '%s pair %d %d' % (variant, a_, b_), rtol=0, atol=1e-12)
+        ctx.close(C[a_, b_], sgn * errs[a_] * errs[b_], 'covariance:affine-images-of-one-observable-not-err-times-err', '%s pair %d %d' % (variant, a_, b_),
+                  rtol=1e-10, scale=errs[a_] * errs[b_])
+    if expect_unit:
+        # a singular correlation matrix: the Cholesky helper has to refuse it (condition number beyond 0.1 / eps)
+        condn = float(np.linalg.cond(R))
+        if condn > 10 * 0.1 / np.finfo(float).eps:
+            ctx.ev()
+            ctx.count('judged:chol:singular-correlation-matrix-accepted')
+            try:
+                pe.obs.invert_corr_cov_cholesky(R, np.diag(1 / errs))
+                ctx.violation('chol:singular-correlation-matrix-accepted', {'cond': condn, 'variant': variant})
+            except (ValueError, np.linalg.LinAlgError):
+                ctx.count('chol_singular_rejected')
+    ctx.nontrivial.add(digest('coincidence', variant, R))
+
+
+def case_rank_deficient(ctx, rng):
+    """more observables than configurations on one chain: documented RuntimeWarning, and the matrix has rank <= N - 1"""
+    import warnings as _w
+    pe = PE
+    nconf = int(rng.integers(5, 8))
+    n = int(rng.integers(nconf, 9)) if nconf < 8 else 8
+    n = max(n, nconf)
+    name = 'A|r1'
+    cfgs = list(range(3, 3 + nconf))
+    sig = rng.normal(size=nconf)
+    obs = []
+    for i in range(n):
+        x = float(rng.uniform(0.3, 1.5)) * sig * float(rng.choice([-1, 1])) + rng.normal(size=nconf) + float(rng.uniform(-2, 2))
+        o = pe.Obs([x], [name], idl=[cfgs])
+        o.gamma_method(S=0)
+        obs.append(o)
+    ctx.cell('rank_deficient', nconf, n)
+    with _w.catch_warnings(record=True) as rec:
+        _w.simplefilter('always')
+        R = pe.covariance(obs, correlation=True)              # judged by the monitor
+    ctx.count('rank_deficient_cases')
+    ctx.require(any('rank deficient' in str(w_.message) for w_ in rec), 'covariance:no-warning-for-more-observables-than-samples', {'n': n, 'N': nconf})
+    ev = np.linalg.eigvalsh((R + R.T) / 2)
+    ctx.require(int(np.sum(ev < 1e-11 * ev[-1])) >= n - (nconf - 1), 'correlation:rank-exceeds-number-of-samples-minus-one', {'eig': ev, 'n': n, 'N': nconf})
+    ctx.nontrivial.add(digest('rankdef', R))
+
+
+def case_empty_replica(ctx, rng):
+    """two replica of one ensemble; on one of them two members have no configuration in common: only the other replica contributes"""
+    pe = PE
+    e = str(rng.choice(gen.ENS_POOL))
+    n1, n2 = int(rng.integers(12, 30)), int(rng.integers(12, 30))
+    c1 = list(range(1, 1 + n1))
+    c2a = list(range(5, 5 + n2))
+    c2b = [c + n2 + int(rng.integers(0, 4)) for c in c2a]       # disjoint from c2a, same length
+    s1, s2 = rng.normal(size=n1), rng.normal(size=2 * n2 + 10)
+    ta = {e + '|r1': {c: 1.0 + s1[k] + 0.3 * rng.normal() for k, c in enumerate(c1)}, e + '|r2': {c: 1.0 + s2[k] + 0.3 * rng.normal() for k, c in enumerate(c2a)}}
+    tb = {e + '|r1': {c: -2.0 - 0.7 * s1[k] + 0.3 * rng.normal() for k, c in enumerate(c1)}, e + '|r2': {c: -2.0 + s2[k] + 0.3 * rng.normal() for k, c in enumerate(c2b)}}
+    a, b = gen.table_to_obs(pe, ta), gen.table_to_obs(pe, tb)
+    third = 0.5 * a + 1.0
+    for o in (a, b, third):
+        o.gamma_method(S=float(rng.choice([0, 1, 2])))
+    lst = [a, b, third] if rng.random() < 0.5 else [b, third, a]
+    ctx.cell('empty_replica_intersection')
+    ctx.count('empty_replica_cases')
+    R = pe.covariance(lst, correlation=True)                   # judged by the monitor (reference skips the empty replica)
+    ia, ib = lst.index(a), lst.index(b)
+    da, db = table_deltas(ta, e + '|r1'), table_deltas(tb, e + '|r1')
+    # (the stored fluctuations of a replica are taken about that replica's own mean)
+    ctx.close(R[ia, ib], rcov.pearson_common(da, db), 'correlation:replica-without-common-configurations-contributes', 'only r1 overlaps', rtol=0, atol=1e-10)
+    ctx.nontrivial.add(digest('emptyrep', R))
+
+
+def case_option_values(ctx, rng):
+    """option values the library's == cannot tell from the documented ones: numpy True for the correlation flag, a numpy integer
+    as smoothing parameter; visualize=True must not change the result; a single-member list."""
+    pe = PE
+    L = build_list(ctx, rng, int(rng.choice([5, 8])), str(rng.choice(['one_chain', 'two_ens', 'replicas'])), str(rng.choice(RELATIONS)))
+    obs = L['obs']
+    n = len(obs)
+    C = pe.covariance(obs)
+    R = pe.covariance(obs, correlation=True)
+    ctx.count('option_value_cases')
+    flag = np.bool_(True) if rng.random() < 0.7 else (np.array([1, 2]) == 1)[0]
+    ctx.close(pe.covariance(obs, correlation=flag), R, 'covariance:numpy-True-not-recognised-as-correlation-flag', 'correlation=np.True_', rtol=0, atol=1e-13)
+    ctx.close(pe.covariance(obs, correlation=np.bool_(False)), C, 'covariance:numpy-False-changes-the-result', 'correlation=np.False_', rtol=1e-13)
+    E = int(rng.choice(rcov.admissible_E(n)[0]))
+    Es = [np.int64(E), np.int32(E), np.arange(10)[E]][int(rng.integers(0, 3))]
+    ctx.close(pe.covariance(obs, correlation=True, smooth=Es), pe.covariance(obs, correlation=True, smooth=E),
+              'covariance:numpy-integer-smoothing-parameter-silently-ignored', 'smooth=%s(%d)' % (type(Es).__name__, E), rtol=0, atol=1e-12)
+    if rng.random() < 0.3:
+        import matplotlib.pyplot as plt
+        V = pe.covariance(obs, visualize=True)
+        plt.close('all')
+        ctx.require(np.array_equal(V, C), 'covariance:visualize-changes-the-result', {})
+        ctx.count('visualize_cases')
+    one = pe.covariance([obs[0]])                              # single member (monitor: reference 1 x 1)
+    ctx.close(one, [[obs[0].dvalue ** 2]], 'covariance:single-member-list-not-the-squared-error', 'n=1', rtol=1e-12)
+    ctx.nontrivial.add(digest('options', R, E))
+
+
 def case_unanalysed(ctx, rng):
     pe = PE
     L = build_list(ctx, rng, 3, 'one_chain', 'nested')
@@ -952,6 +1100,12 @@ def plan(tier):
     if tier != 'quick':
         p.append(('cov:104:two_ens:overlapping', 2))
     p.append(('history', 90 * m))
+    for variant in ('equal_means', 'zero_means', 'equal_errors', 'perfect_correlation', 'duplicates'):
+        for sup in ('one_chain', 'two_ens', 'mixed', 'replicas'):
+            p.append(('coinc:%s:%s' % (variant, sup), 7 * m))
+    p.append(('rankdef', 30 * m))
+    p.append(('emptyrep', 30 * m))
+    p.append(('optvals', 30 * m))
     p.append(('unanalysed', 5 * m))
     p.append(('chol', 100 * m))
     p.append(('sort_corr', 100 * m))
@@ -967,6 +1121,14 @@ def run_case(ctx, kind, idx, rng):
         case_scale(ctx, rng, k[1], k[2])
     elif k[0] == 'history':
         case_history(ctx, rng)
+    elif k[0] == 'coinc':
+        case_coincidence(ctx, rng, k[1], k[2])
+    elif k[0] == 'rankdef':
+        case_rank_deficient(ctx, rng)
+    elif k[0] == 'emptyrep':
+        case_empty_replica(ctx, rng)
+    elif k[0] == 'optvals':
+        case_option_values(ctx, rng)
     elif k[0] == 'unanalysed':
         case_unanalysed(ctx, rng)
     elif k[0] == 'chol':
